@@ -216,20 +216,20 @@ pub(crate) mod verif_params {
         const LOG2_RADIX: usize = 16;
     }
 
-    /// GF(65521), split-word u16/u8; the low half of the modulus is not 1, which keeps every
-    /// carry of the generic split-word code live.
+    /// GF(65269), split-word u16/u8; the low half of the modulus is not 1, which keeps every
+    /// carry of the generic split-word code live. (The four-limb REDC needs p * (R + B) <= R^2.)
     pub(crate) struct FP16T;
     impl_field_ops_split_word!(FP16T, u16, u8);
 
     impl FieldParameters<u16> for FP16T {
-        const PRIME: u16 = 65521;
-        const MU: u16 = 239;
-        const R2: u16 = 225;
-        const G: u16 = 7306;
-        const NUM_ROOTS: usize = 4;
+        const PRIME: u16 = 65269;
+        const MU: u16 = 163;
+        const R2: u16 = 6020;
+        const G: u16 = 13186;
+        const NUM_ROOTS: usize = 2;
         const BIT_MASK: u16 = 65535;
         const ROOTS: [u16; MAX_ROOTS + 1] = [
-            15, 65506, 28671, 16007, 7306, 0, 0, 0, 0, 0, 0, 0, 0, 0, 0, 0, 0, 0, 0, 0, 0,
+            267, 65002, 13186, 0, 0, 0, 0, 0, 0, 0, 0, 0, 0, 0, 0, 0, 0, 0, 0, 0, 0,
         ];
         const HALF: u16 = 32768;
         #[cfg(test)]
